@@ -100,9 +100,22 @@ def attribute(scenario, config, kind, primary, weak):
     return props
 
 
+# configuration families that are long sequential sweeps / differential runs / special shapes: they belong to the plans that name
+# them explicitly and are never picked up by a catch-all pattern of another plan (C03, C07, C16 ... use patterns like "." or "_uptr$")
+SPECIAL_PREFIXES = ("big_", "seq_", "hold_", "wide_")
+
+
 def cfgs_matching(list_configs, target, variant, pattern):
     rx = re.compile(pattern)
-    return [c for c in list_configs(target, variant) if rx.search(c)]
+    out = []
+    for c in list_configs(target, variant):
+        if not rx.search(c):
+            continue
+        sp = [p for p in SPECIAL_PREFIXES if c.startswith(p)]
+        if sp and sp[0].rstrip("_") not in pattern:
+            continue
+        out.append(c)
+    return out
 
 
 def queue_jobs(list_configs, recls, pattern, variant, mode, execs, seed, norecl=False, window=16, extra=None, per_job=4):
@@ -282,10 +295,12 @@ def plan_c15():
                         "acquire_if_equal checked against the recorded value history of the source cell (one-sided interval reasoning). "
                         "PLUS algebra.*: for each of the 16 reclaimer configurations all sequences of 2 (thorough: 3) guard operations over 4 guards "
                         "from three start states and long random sequences racing a retiring thread, judged by a shared-ownership model of the guards "
-                        "(values after every operation, no exception, no node destroyed while a guard holds it). PLUS markedptr (native, ASan+UBSan): "
+                        "(values after every operation, no exception, no node destroyed while a guard holds it); release probe: a holder thread that has destroyed all "
+                        "its guards while nobody else is around retires a probe node, which must be reclaimed within 2000 further retirements / region_guards "
+                        "(observed maxima < 20): reset / destruction really ends the protection. PLUS markedptr (native, ASan+UBSan): "
                         "marked_ptr<T, M, U> for M = 0..32 and U in {16, 8, 4, 0}: corner and random canonical pointers x mark values, get/mark round trip, "
                         "value equality, reset, concurrent_ptr load/store/compare_exchange",
-                        {"guards_registered": 10000, "exhaustive_sequences": 100000, "marked_ptr_combinations": 100000})
+                        {"guards_registered": 10000, "exhaustive_sequences": 100000, "marked_ptr_combinations": 100000, "release_probes": 2000})
     recls = R8 + RPLUS
 
     def targets(tier):
@@ -311,7 +326,9 @@ PLANS["C17"] = plan_reclaim("C17", r"^gens_", 400, 4000,
                             "each evaluation = 6-10 generations (rounds) of 3-6 short-lived threads (late threads start after another thread exited, so "
                             "records of exited threads are adopted inside the history) running the reclaim protocol, each round followed by a flush by fresh "
                             "threads; C01/C02 oracles stay armed; census of live heap blocks at quiescent points after G and 2G rounds must not grow with the "
-                            "number of threads created", {"generation_rounds": 1000, "destroyed_by_other_after_retirer_exit": 100})
+                            "number of threads created; for hazard_pointer / hazard_eras the number of active hazard pointers / eras that the allocation strategy "
+                            "publishes (it scales the retire threshold and every scan) is sampled at the same quiescent points and must not grow either",
+                            {"generation_rounds": 1000, "destroyed_by_other_after_retirer_exit": 100, "declared_slot_samples": 100})
 
 def plan_c03():
     """Weak-memory slice of every scenario (production orders and the TSan build variant) + race detector."""
@@ -442,7 +459,7 @@ PLANS["C13"] = plan_simple(
     "readers, <= 5 operations each, under one seeded schedule (every seq_cst operation, mutex operation and yield is a scheduling point); functor "
     "overlap monitor per instance address, per-instance update logs, WGL search against an atomic register", {"reads_between_switch_and_second_apply": 500}, chunks=16)
 
-def plan_harris(prop, pattern, execs_quick, execs_thorough, rule, gate_counters, seq=False):
+def plan_harris(prop, pattern, execs_quick, execs_thorough, rule, gate_counters, seq=False, hold=False):
     def targets(tier):
         recls = R8 if tier == "quick" else R8 + [8, 9, 11, 12]
         return [("harris.R%d" % r, "xrt-prod") for r in recls]
@@ -455,6 +472,9 @@ def plan_harris(prop, pattern, execs_quick, execs_thorough, rule, gate_counters,
             # sequential differential runs against std::map: 729 executions = the complete enumeration of all sequences of 4 operations
             # (243 slices) + 486 long random sequences per configuration
             j += generic_jobs(list_configs, "harris", recls, r"^seq_", "xrt-prod", "sc", 729 if tier == "quick" else 7290, seed + 17, per_job=2)
+        if hold:
+            # single-threaded sequences in which an iterator is held across updates of the same thread, then advanced or passed to erase
+            j += generic_jobs(list_configs, "harris", recls, r"^hold_", "xrt-prod", "sc", 400 if tier == "quick" else 4000, seed + 23, per_job=2)
         return j
 
     def gates(tier, agg, counters, per_config, distinct):
@@ -486,7 +506,10 @@ PLANS["C09"] = plan_harris(
     "each evaluation = one traversing thread (1-2 full traversals with pre-/post-increment, iterator copies, optional erase(iterator) at position 0-2) and "
     "1-3 updating threads over 2-4 keys; traversal monitor with one-sided interval facts: no yield of an element that is definitely absent, no element "
     "yielded twice without re-insertion, every element definitely present during the whole traversal is yielded; heap shadow for reclaimed nodes; the "
-    "updates (incl. the traverser's erase) are checked per key for linearizability as in C08", {"traversals": 1000, "traversal_yields": 1000})
+    "updates (incl. the traverser's erase) are checked per key for linearizability as in C08; plus (hold_*) single-threaded random sequences of "
+    "100-500 operations in which an iterator obtained by find() is held across 0-2 updates of the same thread (also of its own key) and then "
+    "dereferenced and advanced or passed to erase(iterator): it must still refer to its element and move to exactly the element that follows it in a "
+    "fresh iteration (set: in compare order), the content is compared with std::map", {"traversals": 1000, "traversal_yields": 1000, "hold_episodes": 10000}, hold=True)
 
 VYU_RECLS = [1, 2, 3, 4, 5, 6, 7]  # vyukov_hash_map does not compile with lock_free_ref_count
 
@@ -585,7 +608,7 @@ def plan_c18():
         cfgs = list_configs("slots", "xrt-prod")
         execs = 6000 if tier == "quick" else 40000
         for c in cfgs:
-            if c.startswith("run_"):
+            if c.startswith(("run_", "wide_")):
                 chunks = 1 if tier == "quick" else 4
                 for k in range(chunks):
                     jobs.append(dict(target="slots", variant="xrt-prod", timeout=3600,
@@ -596,7 +619,7 @@ def plan_c18():
                                  args=["--cfg", c, "--mode", "sc", "--seed", str(seed), "--execs", "16"]))
         if tier != "quick":
             for c in cfgs:
-                if c.startswith("run_"):
+                if c.startswith(("run_", "wide_")):
                     jobs.append(dict(target="slots", variant="xrt-prod", timeout=3600,
                                      args=["--cfg", c, "--mode", "weak", "--seed", str(seed + 7), "--execs", "2000", "--window", "64"]))
         return jobs
@@ -605,7 +628,7 @@ def plan_c18():
         msgs = []
         if agg["execs"] == 0:
             msgs.append("no executions")
-        for c, minimum in {"guard_ops": 100000, "exceptions": 1000, "ops_with_K_other_guards": 10000, "exhaustive_sequences": 100000}.items():
+        for c, minimum in {"guard_ops": 100000, "exceptions": 1000, "ops_with_K_other_guards": 10000, "exhaustive_sequences": 100000, "release_probes": 2000}.items():
             if counters.get(c, 0) < minimum:
                 msgs.append("counter %s = %d < %d" % (c, counters.get(c, 0), minimum))
         return msgs
@@ -615,7 +638,9 @@ def plan_c18():
                      "acquire_if_equal, reset, copy/move assignment and construction, construction from marked_ptr, swap, self-assignment) over K+2 guards while "
                      "another thread keeps replacing and retiring the nodes (scan after every retirement), or (exh*) one of 16 slices of ALL sequences of 2 (3 for "
                      "K<=2) operations from the start states 'no guard / K-1 guards / K guards hold a node'; hazard_pointer and hazard_eras, static and dynamic "
-                     "strategy, K in {1,2,3,5}. A model of which guards protect what decides for every operation whether bad_hazard_*_alloc must not (fewer than K "
+                     "strategy, K in {1,2,3,5}; (wide_*) the same random sequences for the dynamic strategies over up to 3K+2 guards with a fill phase (every guard "
+                     "acquires, released in LIFO / FIFO / random order), so that the slot array grows several times and grown control blocks are re-used by later "
+                     "threads. A model of which guards protect what decides for every operation whether bad_hazard_*_alloc must not (fewer than K "
                      "other protecting guards, or dynamic strategy) or must (hazard_pointer static with all K in use) be thrown, that a failed operation leaves every "
                      "other guard untouched, and a registry flags nodes destroyed while a guard protects them")
 
@@ -637,14 +662,14 @@ NATIVE = {
     "C06": [("queues", [2, 3, 5, 7], r"^kir_"), ("queues.norecl", None, r"^kib_")],
     "C07": [("queues", [0, 2, 5], r"."), ("queues.norecl", None, r"^(vyu_|nib_c[2-9]|kib_)")],
     "C08": [("harris", _NR, r"^(lin|seq)_")],
-    "C09": [("harris", _NR, r"^trav_")],
+    "C09": [("harris", _NR, r"^(trav|hold)_")],
     "C10": [("vyukov", [3, 4, 5, 6, 7], r"^(lin|seq)_")],
     "C11": [("vyukov", [3, 4, 5, 6, 7], r"^(iter|seq)_")],
     "C12": [("deque", None, r".")],
     "C13": [("leftright", None, r".")],
     "C14": [("seqlock", None, r".")],
     "C15": [("algebra", _NR, r"^run_alg")],
-    "C18": [("slots", None, r"^run_he_")],
+    "C18": [("slots", None, r"^(run|wide)_he_")],
     "C03": [("queues", [2, 5], r"."), ("queues.norecl", None, r"^(vyu_|nib_c[2-9]|kib_)"), ("reclaim", [2, 5], r"^proto_"), ("harris", [5], r"."),
             ("vyukov", [5], r"^(lin|iter)_"), ("deque", None, r"."), ("seqlock", None, r"."), ("leftright", None, r".")],
 }
